@@ -254,24 +254,27 @@ def canon_impl(impl, exc):
 def impl_fsops(impl):
     """the traced calls in the vocabulary of the model's operation codes"""
     out = []
+
+    def name(path):
+        for top, tag in ((impl.src, None), (impl.dest, "dest:")):
+            if path.startswith(top + os.sep):
+                r = os.path.relpath(path, top)
+                t = impl.relmap.get(r)
+                if tag is None:
+                    return list(t) if t else r
+                return tag + r
+        return path
     for rec in impl.log:
-        op = rec[0]
-        a = rec[1]
-        ra = os.path.relpath(a, impl.src) if a.startswith(impl.src + os.sep) else None
-        if op == "copy":
-            out.append(["copy", list(impl.relmap.get(ra, ra))])
-        elif op == "link":
-            out.append(["link", list(impl.relmap.get(ra, ra))])
-        elif op == "rename":
-            if ra is not None:
-                out.append(["renamein", list(impl.relmap.get(ra, ra))])
+        op, a = rec[0], rec[1]
+        insrc = a.startswith(impl.src + os.sep)
+        if op == "rename":
+            if insrc:
+                out.append(["renamein", name(a)])
             else:
                 rb = os.path.relpath(rec[2], impl.dest)
-                out.append(["rename", list(impl.relmap.get(rb, rb))])
-        elif op == "unlink":
-            out.append(["unlink", list(impl.relmap.get(ra, ra))])
-        elif op == "remove":
-            out.append(["remove", list(impl.relmap.get(ra, ra))])
+                out.append(["rename", list(impl.relmap[rb]) if rb in impl.relmap else "dest:" + rb])
+        else:
+            out.append([op, name(a)])
     return out
 
 
@@ -663,14 +666,14 @@ def run(res):
         impls.append(cross)
     else:
         res.notes.append("no second file system available: cross-fs variant (copy+unlink move, link fallback) not exercised")
-    nh = (25 if quick else 400)
+    nh = (50 if quick else 700)
     for impl in impls:
+        check_histories(res, impl, 1, [WITNESS_STALE], "witness")
         for meth in (0, 1, 2):
             hists = [gen_history(rng, meth, 40, reorder=(i % 4 != 0)) for i in range(nh)]
             # move mode: per-channel causal delivery of metadata events is the guard of the partial theorem;
             # histories violating it are generated too and must show exactly the recorded finding
             check_histories(res, impl, meth, hists, "random")
-        check_histories(res, impl, 1, [WITNESS_STALE], "witness")
     for meth in (0, 1, 2):
         real_recording(res, meth)
     res.sample({"method": "move", "events": [list(e) for e in WITNESS_STALE],
